@@ -9,6 +9,29 @@ NOTE_COMMON = ("Trusted: Lean 4.33 kernel; axioms propext/Classical.choice/Quot.
                "differential execution (sampling, not proof); harness, generators and the cfg(sentinel_verif) hooks; std, lru, serde are not modelled.")
 
 CLAIMS = {
+ "C06": dict(
+    category="proof",
+    text=("Per-value token bucket (Bucket.step = RejectChecker::do_check on one value's two cells): token_bound (for every arrival sequence of any length, tokens admitted from the "
+          "value's first request up to t never exceed q+b+q*(t-first)/d), reject_only_if_insufficient, first_request_admitted, zero_threshold_rejects, bucket_run_inv. LRU layer: "
+          "Lru.peek_addIfAbsent / peek_get / peek_store (a key with room behaves as in a finite map, nothing else changes), checkReject_refines_bucket (the controller's verdict and "
+          "the new cell contents for a value are exactly Bucket.step on that value's cells: decision locality) and checkReject_frame (other values' cells untouched): no cross-talk "
+          "while distinct values stay within capacity; per-value override via thrFor. Tied to hotspot/traffic_shaping/reject.rs, mod.rs, cache.rs, slot.rs through EntryBuilder; "
+          "Spec on traces: one isolated reference bucket per (rule, value) must reproduce the implementation's decisions, plus the explicit token bound."),
+    design_ref="DESIGN.md §6 C06",
+    technique="Lean 4 invariant + refinement proofs (per-value bucket, LRU-as-map) + differential correspondence + isolated-reference Spec oracle on implementation traces",
+    note=NOTE_COMMON + " Sequential semantics (every compare-exchange succeeds first time). lru crate modelled as a recency list; eviction paths are covered by correspondence only (small-capacity stream)."),
+ "C07": dict(
+    category="proof",
+    text=("Flow throttling: throttleCheck_cases (the five outcomes), flow_block_iff (rejected iff threshold<=0, batch>threshold or wait>max), flow_wait_le_max, flow_spacing / "
+          "flow_spacing_run (for every arrival history the scheduled times of admitted requests are at least the later request's cost apart), flow_block_keeps_schedule, "
+          "flow_caller_held + flowSlot_clock_mono (the slot returns with the clock at arrival+wait: the caller is really held). Hotspot throttling per value: hs_throttle_wait / "
+          "_pass / _blocked / _first, checkThrottle_cell (controller = per-value schedule on that value's cell, other values untouched), hs_caller_held with the ms->ns conversion. "
+          "Tied to flow/traffic_shaping/throttling.rs, flow/slot.rs, hotspot/traffic_shaping/throttling.rs, hotspot/slot.rs, utils/time.rs under a virtual clock whose sleep hook "
+          "advances time; Spec on traces: per-rule schedule references (spacing, bounded queueing, rejection exactly otherwise, elapsed virtual time == scheduled wait)."),
+    design_ref="DESIGN.md §6 C07",
+    technique="Lean 4 proofs (case characterisation + induction over arrival histories) + differential correspondence under a virtual clock + Spec oracle on implementation traces",
+    note=NOTE_COMMON + " Sequential callers only (CAS retry paths not claimed). The throttling interval is a float expression reproduced with the integer soft-float, validated through the waits. "
+         "Found and fixed with this check: D2 (hotspot wait in ms slept as ns) — fix: commit 03be35a; witness in corpus/C07."),
  "C09": dict(
     category="proof",
     text=("system_decision: for every rule list and every observation the system slot blocks iff the entry is inbound and some rule trips; trips_iff_spec spells the code's "
@@ -49,10 +72,13 @@ CLAIMS = {
     note=NOTE_COMMON + " Precondition as in the property: each passed entry exited exactly once. The global inbound node is process-wide: cases are separated by one virtual hour."),
  "C05": dict(
     category="proof",
-    text=("Isolation half: isolation_admit_iff (admitted iff in-flight + n <= every threshold, any rule list, any batch), isolation_block_names_rule (named rule really exceeded, snapshot = in-flight), "
+    text=("Hotspot-concurrency half: hs_conc_admit_iff / hs_conc_cap on the per-value cell (any build/exit sequence, T>=1), checkConc_cell (the rule's check IS the per-value check on "
+          "that value's counter cell, override replaces the threshold for that value only, other values' cells untouched while the value has room in the LRU counter), override_local, "
+          "extract_key_priority / extract_negative_index / extract_missing. Spec on traces: one isolated reference per (rule, value). Characterised, not asserted: the code counts entries "
+          "(batch plays no role) and admits the first request for a never-seen value even with threshold 0. "
+          "Isolation half: isolation_admit_iff (admitted iff in-flight + n <= every threshold, any rule list, any batch), isolation_block_names_rule (named rule really exceeded, snapshot = in-flight), "
           "isolation_cap (in-flight never exceeds any threshold over any build/exit sequence with batch >= 1), freed_capacity_usable, iso_conc_eq_open, block type = Isolation. "
-          "Tied to isolation/slot.rs + node concurrency via EntryBuilder on the global chain; Spec evaluated on implementation traces. The hotspot-concurrency half "
-          "(per-value caps, overrides, extract_args) is stated in DESIGN and is added with the hotspot model; until then this check covers the isolation half only."),
+          "Tied to isolation/slot.rs + node concurrency via EntryBuilder on the global chain; Spec evaluated on implementation traces. "),
     design_ref="DESIGN.md §6 C05",
     technique="Lean 4 proofs (decision lemma + invariant over build/exit sequences) + differential correspondence + Spec oracle on implementation traces",
     note=NOTE_COMMON + " Found and fixed with this check: D1 (isolation rejections reported as SystemFlow) — fix: commit ee5bd62; witness kept in corpus/C05."),
